@@ -273,7 +273,7 @@ def build_cxx(kind='san'):
         shutil.rmtree(d, ignore_errors=True)
         os.makedirs(d)
         inc = '-I%s/include -I%s/applications/include -I%s' % (REPO, REPO, HARNESS)
-        units = [('h_' + os.path.basename(f)[:-4], f) for f in hs if f.endswith('.cpp')]
+        units = [('h_' + os.path.basename(f)[:-4], f) for f in hs if f.endswith('.cpp') and os.path.basename(f) != 'stubs.cpp']
         units += [('app_utils', os.path.join(REPO, 'applications/src/app_utils.cpp')),
                   ('cli_main', os.path.join(REPO, 'applications/src/multitensor.cpp'))]
         procs = []
@@ -282,14 +282,25 @@ def build_cxx(kind='san'):
             procs.append((name, subprocess.Popen(cmd, shell=True, stdout=subprocess.PIPE, stderr=subprocess.STDOUT)))
         log = ''
         failed = False
+        unavailable = {}
         for name, p in procs:
             out = p.communicate()[0].decode('utf-8', 'replace')
             if p.returncode != 0:
+                if name.startswith('h_comp_'):
+                    # an OPTIONAL component (it reaches into an internal interface): a stub stands in, only its own cases are affected
+                    unit = name[2:]
+                    rc_s, out_s = sh('g++ %s -DSTUB_%s -c %s -o %s/%s.o' % (flags, unit.upper(), os.path.join(HARNESS, 'stubs.cpp'), d, name))
+                    if rc_s == 0:
+                        err = [l for l in out.splitlines() if 'error' in l]
+                        unavailable[unit] = (err[0] if err else out[-300:]).strip()[:400]
+                        continue
                 failed = True
                 log += '--- %s\n%s\n' % (name, out[-3000:])
         if failed:
             open(os.path.join(d, 'build.log'), 'w').write(log)
             return None, 'C++ compilation failed:\n' + log[-3000:]
+        with open(os.path.join(d, 'unavailable.json'), 'w') as f:
+            json.dump(unavailable, f)
         hobjs = ' '.join('%s/%s.o' % (d, n) for n, _ in units if n.startswith('h_'))
         rc1, o1 = sh('g++ %s %s %s/app_utils.o -o %s/harness -lboost_filesystem -lboost_system' % (flags, hobjs, d, d))
         rc2, o2 = sh('g++ %s %s/cli_main.o %s/app_utils.o -o %s/Multitensor -lboost_filesystem -lboost_system' % (flags, d, d, d))
@@ -380,7 +391,7 @@ def run_both(bdir, cases, tag, shards=None, timeout=3600, model=True, keys=None,
         pm = subprocess.Popen([os.path.join(OCAML, 'mtmodel'), cp, cp + '.model'] if model else ['true'], stdout=subprocess.PIPE,
                               stderr=subprocess.STDOUT)
         procs.append((cp, part, pi, pm))
-    result = {'n': len(cases), 'compared_tokens': 0, 'mismatches': [], 'crashes': [], 'impl': {}, 'model': {}}
+    result = {'n': len(cases), 'compared_tokens': 0, 'mismatches': [], 'crashes': [], 'impl': {}, 'model': {}, 'unavailable': set()}
     deadline = time.time() + timeout
     for cp, part, pi, pm in procs:
         try:
@@ -416,6 +427,10 @@ def run_both(bdir, cases, tag, shards=None, timeout=3600, model=True, keys=None,
             cid = case_id(line)
             a = ti.get(cid)
             b = tm.get(cid)
+            if a is not None and a and a[0] and a[0][0] == 'UNAVAILABLE':
+                # the harness unit of this component does not compile against the tree under test (a stub answers)
+                result['unavailable'].add(a[0][1] if len(a[0]) > 1 else '?')
+                continue
             if a is not None:
                 a = [x for x in a if not (x and x[0].startswith('@'))]   # impl-only observations (oracle input)
             if keys is not None:
